@@ -2,6 +2,8 @@
 #![allow(dead_code, unused_imports, static_mut_refs)]
 extern crate alloc;
 
+/// see l2::new_secret
+pub const SECRET_BY_DECODE: Option<usize> = None;
 #[path = "../common/l2.rs"]
 pub mod l2;
 #[macro_use]
